@@ -24,7 +24,7 @@ def msg_for(stype, c, n):
         body = [b""] + body
     if stype == "XPUB":
         body = [b"\x01" + tag.encode()]
-    return [f.hex() for f in body]
+    return [S.hx(f) for f in body]
 
 
 def concretize(hist, stype, scen):
@@ -84,7 +84,7 @@ def run_scripts(chk, scripts, label, monitor="TraceDelivery", env=None):
     return viols
 
 
-def report(chk, viols, scripts, prefixes, family, relabel=None):
+def report(chk, viols, scripts, prefixes, family, relabel=None, monitor=None):
     byscen = {s["scen"]: s for s in scripts}
     other = set()
     for scen, code, line in viols:
@@ -93,7 +93,7 @@ def report(chk, viols, scripts, prefixes, family, relabel=None):
             if relabel:
                 code = relabel + code.replace("/", ":")
             chk.violation(code, {"layer": "socket", "family": family, "scenario": scen, "sock": sc and sc["sock"], "trace_line": line},
-                          {"kind": "engine", "script": sc})
+                          {"kind": "engine", "script": sc, "monitor": monitor})
         else:
             other.add(code)
     if other:
